@@ -25,8 +25,8 @@ EXPLANATION = ('Structural clause of C01 decided for all inputs: every lane-wise
 LEVEL_NOTE = ('Decides the lane schema for all inputs; libm accuracy is not claimed. Trusted: IEEE facts F1-F5 of rules/lift.py, round-via-trunc identity, rustc MIR/layout, intrinsic table, IEEE-exact rewrites, '
               'and the equivalences the property itself grants (-0 == +0, NaN == NaN, min/max on non-NaN lanes).')
 
-CONFIGS_QUICK = ['sse2', 'sse2-fma', 'scalar', 'coresimd']
-CONFIGS_THOROUGH = ['sse2', 'sse2-fma', 'scalar', 'coresimd', 'libm', 'neon', 'wasm32']
+CONFIGS_QUICK = ['sse2', 'sse2-fma', 'sse41', 'scalar', 'coresimd', 'libm', 'neon', 'wasm32']
+CONFIGS_THOROUGH = ['sse2', 'sse2-fma', 'sse41', 'scalar', 'coresimd', 'libm', 'neon', 'wasm32']
 FLOAT_TYPES = {'Vec2': 'f32', 'Vec3': 'f32', 'Vec3A': 'f32', 'Vec4': 'f32', 'DVec2': 'f64', 'DVec3': 'f64', 'DVec4': 'f64'}
 OP_TRAITS = {'Add', 'Sub', 'Mul', 'Div', 'Rem', 'Neg', 'AddAssign', 'SubAssign', 'MulAssign', 'DivAssign', 'RemAssign'}
 SAME_NAMED = {'abs', 'signum', 'copysign', 'min', 'max', 'floor', 'ceil', 'trunc', 'round', 'fract', 'recip', 'mul_add', 'exp', 'powf',
@@ -40,7 +40,7 @@ FLOOR_REDUCE = 60
 
 
 def backend_of(F, cfg):
-    if cfg.startswith('sse2') or cfg in ('libm', 'fastmath'):
+    if cfg.startswith('sse') or cfg in ('libm', 'fastmath'):
         return 'sse2'
     return cfg
 
